@@ -958,6 +958,10 @@ def splice_anchors(body, anchors, fnname):
             raise ExtractError('%s: anchor %r matched %d times' % (fnname, pat, len(ms)))
         m = ms[0]
         pos = m.start() if where == 'before' else m.end()
+        # a ghost statement may only be placed at a statement boundary: splicing it after `else` or into an expression would change the code
+        prev = body[:pos].rstrip()
+        if not (prev == '' or prev[-1] in ';{}'):
+            raise ExtractError('%s: anchor %r is not at a statement boundary (preceded by %r)' % (fnname, pat, prev[-12:]))
         body = body[:pos] + ' ' + text + ' ' + body[pos:]
         n += 1
     return body, n
